@@ -94,14 +94,109 @@ def _real():
     return h
 
 
+DIVAN = "src/divan.rs"
+
+ARM_HEAD = r"""
+#[cfg(kani)]
+#[allow(static_mut_refs)]
+mod verif_args_arm {
+    use super::*;
+    pub static mut SEEN_IDX: [usize; 4] = [99; 4];
+    pub static mut SEEN_LABEL: [usize; 4] = [99; 4];     // address of the label slot each row was painted with
+    pub static mut NSEEN: usize = 0;
+    pub static mut NROWS: usize = 0;
+    /// what the arm needs of the argument runner: the original names, and a call with an index
+    struct ArmRunner { names: &'static [&'static str] }
+    impl ArmRunner {
+        fn arg_names(&self) -> &'static [&'static str] { self.names }
+        fn bench(&self, _bencher: (), arg_index: usize) { unsafe { if NSEEN < 4 { SEEN_IDX[NSEEN] = arg_index; } NSEEN += 1; } }
+    }
+    /// (text of the `BenchEntryRunner::Args` arm of Divan::run_bench_entry, see units/C17.py arm_shim)
+    fn arm(bench_runner: ArmRunner, bench_arg_names: Option<&[&&str]>) {
+        let run_bench = |name: &str, _is_last: bool, with_bencher: &dyn Fn(())| {
+            unsafe { if NROWS < 4 { SEEN_LABEL[NROWS] = name.as_ptr() as usize + name.len(); } NROWS += 1; }
+            with_bencher(());
+        };
+"""
+
+ARM_TAIL = r"""
+    }
+    static BUF: &str = "abcdefgh";
+    static mut NAMES4: [&'static str; 4] = ["", "", "", ""];
+    fn names4() -> &'static [&'static str; 4] { unsafe { &*std::ptr::addr_of!(NAMES4) } }
+    /// all four labels kept, the two inner ones possibly exchanged (as a sort by name leaves them): the list has its original
+    /// length, first and last label - and still every row is run with the index of the argument its label names
+    #[kani::proof]
+    #[kani::unwind(6)]
+    fn labels_reordered_all_kept() {
+        unsafe { NAMES4 = [&BUF[..1], &BUF[..2], &BUF[..4], &BUF[..8]]; NSEEN = 0; NROWS = 0; }
+        let swap: bool = kani::any();
+        let (a, b) = if swap { (2, 1) } else { (1, 2) };
+        let picked: [&&str; 4] = [&names4()[0], &names4()[a], &names4()[b], &names4()[3]];
+        arm(ArmRunner { names: names4() }, Some(&picked[..]));
+        let (n, idx, rows, lab) = unsafe { (NSEEN, SEEN_IDX, NROWS, SEEN_LABEL) };
+        assert!(n == 4 && rows == 4, "[C17] one run per remaining label");
+        assert!(idx[0] == 0 && idx[1] == a && idx[2] == b && idx[3] == 3, "[C17] a label is measured with the argument it names, whatever order the labels are shown in");
+        // the row is painted with that very label (the labels are prefixes of one buffer: told apart by their end address)
+        let end = |k: usize| names4()[k].as_ptr() as usize + names4()[k].len();
+        assert!(lab[0] == end(0) && lab[1] == end(a) && lab[2] == end(b) && lab[3] == end(3), "[C17] each row shows the label it was run for");
+        kani::cover!(swap); kani::cover!(!swap);
+    }
+    /// a strict subset in any order: indices still come from the original list
+    #[kani::proof]
+    #[kani::unwind(6)]
+    fn labels_subset() {
+        unsafe { NAMES4 = [&BUF[..1], &BUF[..2], &BUF[..4], &BUF[..8]]; NSEEN = 0; NROWS = 0; }
+        let i: usize = kani::any(); let j: usize = kani::any(); kani::assume(i < 4 && j < 4 && i != j);
+        let picked: [&&str; 2] = [&names4()[i], &names4()[j]];
+        arm(ArmRunner { names: names4() }, Some(&picked[..]));
+        let (n, idx) = unsafe { (NSEEN, SEEN_IDX) };
+        assert!(n == 2 && idx[0] == i && idx[1] == j, "[C17] a label is measured with the argument it names (an unselected case is not run in its place)");
+        kani::cover!(i == 3 && j == 0);
+    }
+}
+"""
+
+
+def arm_shim(S: Sources) -> str:
+    """The `BenchEntryRunner::Args` arm of Divan::run_bench_entry from `let orig_arg_names = ..;` to the end of its `for` loop, text copied on
+    every run into a function of the scratch copy whose `bench_runner` and `run_bench` are recorders (no BenchContext is created: four
+    create/drop cycles end in Kani's dealloc-model artefact)."""
+    from lib import rsx
+    d = S(DIVAN)
+    f = d.find_fn("run_bench_entry", impl=r"impl Divan\b")
+    body = f.body_text()
+    import re
+    ms = re.search(r"let\s+orig_arg_names\s*=\s*bench_runner\s*\.\s*arg_names\s*\(\s*\)\s*;", body)
+    if not ms:
+        raise rsx.LostAnchor(f"{DIVAN}: run_bench_entry: `let orig_arg_names = bench_runner.arg_names();` not found")
+    mf = re.search(r"for\s*\(\s*i\s*,\s*&\s*arg_name\s*\)\s*in\s+bench_arg_names\s*\.\s*iter\s*\(\s*\)\s*\.\s*enumerate\s*\(\s*\)\s*\{", body[ms.start():])
+    if not mf:
+        raise rsx.LostAnchor(f"{DIVAN}: run_bench_entry: the loop over bench_arg_names not found")
+    open_at = ms.start() + mf.end() - 1
+    close = rsx._match(body, open_at)
+    return ARM_HEAD + body[ms.start():close + 1] + ARM_TAIL
+
+
 def build(S: Sources) -> Unit:
     S(UTIL)
+    errs = []
+    shim = guarded(lambda: arm_shim(S), errs, None)
+    inj = {UTIL: KANI_UTIL, ARGS: KANI_ARGS_REAL}
+    arm_hs = []
+    if shim is not None:
+        inj[DIVAN] = shim
+        arm_hs = [KaniHarness("verif_args_arm::labels_reordered_all_kept", "bounded", bound="4 arguments whose names alias one buffer, all kept, the inner two in either order",
+                              covers="Divan::run_bench_entry, Args arm (text run through a shim with recorders for the runner and the row painter): label -> index in the original names"),
+                  KaniHarness("verif_args_arm::labels_subset", "bounded", bound="4 arguments, every ordered pair of two kept labels",
+                              covers="Divan::run_bench_entry, Args arm (shim): label -> index in the original names")]
     return Unit(
         property_id="C17",
         verus=[],
-        kani=[KaniSpec(injections={UTIL: KANI_UTIL, ARGS: KANI_ARGS_REAL},
+        build_errors=errs,
+        kani=[KaniSpec(injections=inj,
                        harnesses=[KaniHarness("verif_c17_util::slice_ptr_index_roundtrip", "complete", covers="util::slice_ptr_index"),
-                                  _real()],
+                                  _real()] + arm_hs,
                        stubs_note=["std::hash::RandomState::new -> zero keys (thread pool construction for the BenchContext handed to Bencher::new)"]),
               E.entry_kani("C17", only={"arg_label_to_value"})],
         undecided_clauses=[
